@@ -39,7 +39,7 @@ def gen_case(streams, tier):
     config = g.choice(CONFIGS)
     if config == 'pre':
         cfg = gen.make_cfg(nets=(3, 20), mem_mid_aw=0.15, rom_holes_prob=0.35,
-                           const_bias=g.choice([0.0, 0.0, 0.25, 0.5]))
+                           const_bias=g.choice([0.0, 0.0, 0.25, 0.5]), dup_mem_name_prob=0.3)
     else:
         cfg = gen.make_cfg(nets=(2, 10), classes=g.choice([['bit', 'small'], ['small']]),
                            max_mul_width=5, mem_wide_aw=0.0, mem_aw=(1, 4), rom_aw_max=3,
